@@ -7,11 +7,13 @@ for m in sorted(glob.glob('/verif/seeded/*/meta.json')):
     slug = os.path.basename(os.path.dirname(m))
     now = d.get('recheck') or {}
     caught = (d.get('check_rc') == 1)
-    verdict = 'caught' if caught else 'missed at first'
-    if not caught and now.get('rc') == 1:
-        verdict = 'missed at first, caught after strengthening'
+    hist = d.get('history', '')
+    if hist:
+        verdict = ('caught now' if now.get('rc', d.get('check_rc')) == 1 else 'NOT caught') + ' - ' + hist.split(';')[0].split('. ')[0]
+    else:
+        verdict = 'caught by the first version of the check' if caught else 'missed'
     if d.get('caught_by_other_check'):
-        verdict += '; caught by ' + d['caught_by_other_check']['check']
+        verdict += ' (also caught by ' + d['caught_by_other_check']['check'] + ')'
     keys = (now.get('keys') or d.get('check_violation_keys') or [])[:3]
     rows.append('| `%s` | %s | %s | %s | %s |' % (slug, d['property'], d.get('needs', '').replace('|', '/'), verdict, ', '.join('`%s`' % k for k in keys)))
 print('| seeded change | property | needs, to manifest | result | monitor keys that fire |')
